@@ -16,8 +16,23 @@ real node one ready handle at a time, harness/corr_mapasyncfine.py):
 * **ready queue** `ready : List H`: `call_soon` appends, `_run_once` pops from the front.  `tick` runs the head.
   Handles that exist in the real loop but neither change nor enqueue anything modelled (the harness's own task, the
   self-pipe read) are not in the list; every handle that can enqueue a modelled handle is.
-* **`update`** (l. 785-789): `if not self.work_task:` create the worker task (its first step is queued), retain,
+* **`update`** (l. 788-792): `if not self.work_task:` create a worker task (its first step is queued), retain,
   `create_task(self._insert_job(x, metadata))` — the insert task's first step `insFirst i` is queued behind it.
+* **worker life cycle** (l. 768-786, 811-816; repairs 63350ae and 6edff40).  `workers` lists every worker task ever
+  created, in creation order (worker `w` = the `w`-th `_create_work_task`), each with its own `asyncio.Event`
+  (`stop`); `_last_worker` is always the last one created, so the `previous` of worker `w` is worker `w - 1`;
+  `workTask` is the handle `self.work_task` (index of its task, `none` = `None`).
+  `start()`: `if self.work_task is None or self.work_task[1].done():` create a worker, else nothing.
+  `stop()`: set the event of `work_task`, `work_task = None` (with `work_task is None` it raises `TypeError`: not
+  enabled).  A worker's first step: `if previous is not None and not previous.done(): await asyncio.wait([previous])`
+  (`waitPrev false`; the predecessor's completion queues `_wait`'s `_on_completion` callback `waitCb w`, which
+  resolves the waiter future and queues the worker's wake-up: `waitPrev true`); then `while not stop_work.is_set():`
+  — the event is looked at ONLY at the top of the loop: a stopped worker still finishes the task it is working on,
+  or takes the one it was already waiting for (its getter stays registered), and only then returns (`finished`).
+  Variants `Cfg.life`: `.startReplaces` = the tree before 63350ae (`start()` sets the old event and ALWAYS creates a
+  worker; no predecessor wait), `.noPredecessorWait` = the tree between the two repairs (a new worker starts taking
+  tasks at once).  `Queue._getters` is a FIFO of getter futures (`getters`, by worker): with a single consumer it
+  never holds more than one, in the variants several workers can wait in `get()`.
 * **`asyncio.Lock`** (`locks.py` l. 92-155).  `acquire`: `if not self._locked and (self._waiters is None or
   all(w.cancelled() for w in self._waiters))` -> take it WITHOUT suspending; otherwise append a future to `_waiters`
   and suspend.  `release`: `_locked = False; _wake_up_first()`: `fut = next(iter(self._waiters)); if not fut.done():
@@ -45,13 +60,15 @@ real node one ready handle at a time, harness/corr_mapasyncfine.py):
   `jobFirst j` runs it up to that await (or to completion if the future is already resolved); resolving the future
   of a suspended job queues `jobWake j`, which finishes the task.
 
-Variants (`Cfg.variant`): `.locked` is the code as it is; `.fastPath` the "optimisation" that takes the lock only when
+Variants of the insert path (`Cfg.variant`): `.locked` is the code as it is; `.fastPath` the "optimisation" that takes the lock only when
 `work_queue.full()` at the first step (and inserts after leaving the `async with`); `.polling` the pre-repair code in
 which every waiting job polls concurrently, no lock.  The theorems are about `.locked`; the other two are refuted on
 concrete schedules.
 
-Not modelled: reference counts (Model/AsyncBuffer.lean and its proofs), failing jobs, cancellation, `stop()`, a
-synchronous consumer (`downAsync = false`).
+Not modelled: reference counts (Model/AsyncBuffer.lean and its proofs), failing jobs (`stop_on_exception`),
+cancellation, a synchronous consumer (`downAsync = false`).  The only guards that say "this handle cannot exist in this
+state" (`none`): a worker's wake-up while it waits for its predecessor and `_on_completion` has not run, a step of a
+finished worker, `_on_completion` for a worker that is not waiting, `jobFirst` of a job whose first step has run.
 -/
 namespace StreamzVerif.MapAsyncFine
 
@@ -59,14 +76,21 @@ inductive Variant where
   | locked | fastPath | polling
 deriving Repr, DecidableEq
 
+/-- worker life cycle: the code as it is, and the two pre-repair mechanisms -/
+inductive Life where
+  | current | startReplaces | noPredecessorWait
+deriving Repr, DecidableEq
+
 structure Cfg where
   /-- `asyncio.Queue(maxsize=parallelism)`; 0 = unbounded -/
   p : Nat
   variant : Variant := .locked
+  life : Life := .current
 deriving Repr, DecidableEq
 
-/-- the code as it is: `async with self._insert_lock:` around slot wait, `func(x)` and `put` -/
-abbrev locked (p : Nat) : Cfg := ⟨p, .locked⟩
+/-- the code as it is: `async with self._insert_lock:` around slot wait, `func(x)` and `put`; `start()` creates a worker
+only when there is none or the previous one has finished; a new worker waits for its predecessor -/
+abbrev locked (p : Nat) : Cfg := { p := p }
 
 /-- A handle in the loop's ready queue. -/
 inductive H where
@@ -78,14 +102,16 @@ inductive H where
   | insPoll (j : Nat)
   /-- done-callback of insert task `j`: the producer's `emit` awaitable completes -/
   | ack (j : Nat)
-  /-- a step of the task `work_callback` (first step or any wake-up) -/
-  | worker
+  /-- a step of worker task `w` (`work_callback`): first step or any wake-up -/
+  | worker (w : Nat)
+  /-- `asyncio.wait`'s `_on_completion` callback of worker `w`'s wait for its predecessor -/
+  | waitCb (w : Nat)
   /-- first step of the user's job task `j` -/
   | jobFirst (j : Nat)
   /-- resumption of user job `j` after its future was resolved -/
   | jobWake (j : Nat)
-  /-- `asyncio.gather`'s `_done_callback` on the consumer's awaitable -/
-  | gatherCb
+  /-- `asyncio.gather`'s `_done_callback` on the consumer's awaitable of worker `w`'s emission -/
+  | gatherCb (w : Nat)
 deriving Repr, DecidableEq
 
 inductive JSt where
@@ -101,12 +127,12 @@ inductive JSt where
   | done
 deriving Repr, DecidableEq
 
-/-- State of the coroutine `work_callback` between two handles. -/
+/-- State of one `work_callback` coroutine between two handles. -/
 inductive W where
-  /-- `self.work_task` is `None` (no `update` yet) -/
-  | absent
   /-- task created, first step queued -/
   | starting
+  /-- suspended in `await asyncio.wait([previous])`; `woken` = `_on_completion` has run, the wake-up is queued -/
+  | waitPrev (woken : Bool)
   /-- suspended in `await self.work_queue.get()`; `registered` = its getter future is still in `Queue._getters`
   (unresolved); `false` = a `put_nowait` has resolved it, the wake-up is queued -/
   | getting (registered : Bool)
@@ -115,12 +141,28 @@ inductive W where
   /-- suspended in `await asyncio.gather(*results)` after `_emit(result of j)`; `busy` = the consumer has not
   completed its awaitable yet -/
   | emitting (j : Nat) (busy : Bool)
+  /-- the coroutine has returned (`stop_work.is_set()` at the top of the loop) -/
+  | finished
 deriving Repr, DecidableEq
 
-/-- the job the worker has taken out of the queue and not emitted yet -/
-def W.pre : W → List Nat
-  | .awaiting j => [j]
-  | _ => []
+/-- One worker: its `asyncio.Event` and the state of its coroutine. -/
+structure Wk where
+  stop : Bool := false
+  st : W := .starting
+deriving Repr, DecidableEq
+
+/-- still waiting to get past its predecessor -/
+def W.isPre : W → Bool
+  | .starting => true
+  | .waitPrev _ => true
+  | _ => false
+
+/-- past the predecessor wait and not finished: able to take tasks off the queue / holding one -/
+def W.isActive : W → Bool
+  | .getting _ => true
+  | .awaiting _ => true
+  | .emitting _ _ => true
+  | _ => false
 
 structure FSt (α : Type) where
   /-- `loop._ready` (modelled handles), front first -/
@@ -133,14 +175,19 @@ structure FSt (α : Type) where
   lockq : List (Nat × Bool) := []
   /-- `work_queue._queue` -/
   queue : List Nat := []
-  worker : W := .absent
+  /-- `work_queue._getters`: the workers whose `get()` registered a future, FIFO -/
+  getters : List Nat := []
+  /-- every worker task ever created, in creation order (`_last_worker` = the last one) -/
+  workers : List Wk := []
+  /-- `self.work_task` (index of its task; its event is that worker's `stop`) -/
+  workTask : Option Nat := none
   /-- every started job with its status, in start order -/
   jobs : List (Nat × JSt) := []
   /-- history: the order in which `func` was called = elements entered the work queue = insert tasks completed -/
   started : List Nat := []
   /-- history: elements whose result has been handed downstream, in order -/
   outs : List Nat := []
-  /-- history: elements the worker has released after the consumer finished -/
+  /-- history: elements a worker has released after the consumer finished -/
   fin : List Nat := []
   /-- history: producers notified (`emit` awaitable complete) -/
   acked : List Nat := []
@@ -153,8 +200,12 @@ inductive FAct (α : Type) where
   | tick
   /-- the environment resolves the future user job `j` awaits -/
   | jobDone (j : Nat)
-  /-- the consumer completes the awaitable of the current emission -/
+  /-- the consumer completes the awaitable of the emission of the lowest-numbered worker that has one pending -/
   | downDone
+  /-- `map_async.start()` (called directly or reached by `Stream.start()` walking upstream from any node) -/
+  | start
+  /-- `map_async.stop()` -/
+  | stop
 deriving Repr, DecidableEq
 
 /-- `asyncio.Queue.full`: `if self._maxsize <= 0: return False else: return self.qsize() >= self._maxsize`. -/
@@ -165,14 +216,48 @@ def jst {α : Type} (s : FSt α) (j : Nat) : Option JSt := s.jobs.lookup j
 def setJ (j : Nat) (st : JSt) (jobs : List (Nat × JSt)) : List (Nat × JSt) :=
   jobs.map (fun e => if e.1 = j then (j, st) else e)
 
+/-! ### workers -/
+
+def stL (l : List Wk) (w : Nat) : W :=
+  match l[w]? with
+  | some k => k.st
+  | none => .finished
+
+def stopL (l : List Wk) (w : Nat) : Bool :=
+  match l[w]? with
+  | some k => k.stop
+  | none => true
+
+def stOf {α : Type} (s : FSt α) (w : Nat) : W := stL s.workers w
+def stopOf {α : Type} (s : FSt α) (w : Nat) : Bool := stopL s.workers w
+
+def setSt {α : Type} (s : FSt α) (w : Nat) (x : W) : FSt α :=
+  { s with workers := s.workers.modify w (fun k => { k with st := x }) }
+
+/-- `stop_work.set()` on worker `w`'s event -/
+def setStop {α : Type} (s : FSt α) (w : Nat) : FSt α :=
+  { s with workers := s.workers.modify w (fun k => { k with stop := true }) }
+
+/-- `_create_work_task`: a fresh event, `create_task(self.work_callback(stop_work, self._last_worker))` (first step
+queued), `self._last_worker = work_task`; the caller stores the pair in `self.work_task`. -/
+def createWorker {α : Type} (s : FSt α) : FSt α :=
+  { s with workers := s.workers ++ [{}], workTask := some s.workers.length,
+           ready := s.ready ++ [H.worker s.workers.length] }
+
+/-- `Queue._wakeup_next(self._getters)`: `while waiters: waiter = waiters.popleft(); if not waiter.done():
+waiter.set_result(None); break` — pop getters up to and including the first unresolved one, resolve it. -/
+def wakeGetter {α : Type} (s : FSt α) : List Nat → FSt α
+  | [] => { s with getters := [] }
+  | g :: rest =>
+    if stOf s g = .getting true then
+      { setSt s g (.getting false) with getters := rest, ready := s.ready ++ [H.worker g] }
+    else wakeGetter s rest
+
 /-- `coro = self.func(x); task = self._create_task(coro); self.work_queue.put_nowait((task, metadata))`
-(l. 833-835; `queues.py` `put_nowait`: `_put`, `_wakeup_next(self._getters)`). -/
+(`queues.py` `put_nowait`: `_put`, `_wakeup_next(self._getters)`). -/
 def insertNow {α : Type} (s : FSt α) (j : Nat) : FSt α :=
-  let s1 := { s with started := s.started ++ [j], jobs := s.jobs ++ [(j, .created)], queue := s.queue ++ [j],
-                     ready := s.ready ++ [.jobFirst j] }
-  match s.worker with
-  | .getting true => { s1 with worker := .getting false, ready := s1.ready ++ [.worker] }
-  | _ => s1
+  wakeGetter { s with started := s.started ++ [j], jobs := s.jobs ++ [(j, .created)], queue := s.queue ++ [j],
+                      ready := s.ready ++ [H.jobFirst j] } s.getters
 
 /-- `Lock.release`: `self._locked = False; self._wake_up_first()`. -/
 def releaseLock {α : Type} (s : FSt α) : FSt α :=
@@ -199,22 +284,58 @@ def tryLock {α : Type} (c : Cfg) (s : FSt α) (j : Nat) : FSt α :=
   if s.holder = none ∧ s.lockq = [] then slotWait c s j
   else { s with lockq := s.lockq ++ [(j, false)] }
 
-/-- `work_callback` obtained the result of job `j`: `_emit(result)`, suspend in `gather`. -/
-def emitNow {α : Type} (s : FSt α) (j : Nat) : FSt α :=
-  { s with outs := s.outs ++ [j], worker := .emitting j true }
+/-- worker `w` obtained the result of job `j`: `_emit(result)`, suspend in `gather`. -/
+def emitNow {α : Type} (s : FSt α) (w j : Nat) : FSt α :=
+  { setSt s w (.emitting j true) with outs := s.outs ++ [j] }
 
-/-- `task, metadata = await self.work_queue.get(); self.work_queue.task_done(); result = await task`. -/
-def getNext {α : Type} (s : FSt α) : FSt α :=
+/-- worker `w`: `task, metadata = await self.work_queue.get(); self.work_queue.task_done(); result = await task`. -/
+def getNext {α : Type} (s : FSt α) (w : Nat) : FSt α :=
   match s.queue with
-  | [] => { s with worker := .getting true }
+  | [] => { setSt s w (.getting true) with getters := s.getters ++ [w] }
   | j :: rest =>
-    if jst s j = some .done then emitNow { s with queue := rest } j
-    else { s with queue := rest, worker := .awaiting j }
+    if jst s j = some .done then emitNow { s with queue := rest } w j
+    else setSt { s with queue := rest } w (.awaiting j)
 
-/-- the task of user job `j` finishes: done-callbacks are queued (the worker's wake-up if it awaits this task) -/
+/-- worker `w`'s coroutine returns: the task is done; the successor's `asyncio.wait`, if it is waiting, is told -/
+def finishWorker {α : Type} (s : FSt α) (w : Nat) : FSt α :=
+  let s1 := setSt s w .finished
+  if stOf s (w + 1) = .waitPrev false then { s1 with ready := s1.ready ++ [H.waitCb (w + 1)] } else s1
+
+/-- the top of `while not stop_work.is_set():` — the ONLY place the event is looked at -/
+def loopTop {α : Type} (s : FSt α) (w : Nat) : FSt α :=
+  if stopOf s w then finishWorker s w else getNext s w
+
+/-- the workers suspended in `await task` of job `j` -/
+def awaiters {α : Type} (s : FSt α) (j : Nat) : List Nat :=
+  (List.range s.workers.length).filter (fun w => stOf s w == .awaiting j)
+
+/-- the task of user job `j` finishes: done-callbacks are queued (the wake-up of the worker that awaits this task) -/
 def finishJob {α : Type} (s : FSt α) (j : Nat) : FSt α :=
-  let s1 := { s with jobs := setJ j .done s.jobs }
-  if s.worker = .awaiting j then { s1 with ready := s1.ready ++ [.worker] } else s1
+  { s with jobs := setJ j .done s.jobs, ready := s.ready ++ (awaiters s j).map H.worker }
+
+/-- the lowest-numbered worker whose emission the consumer has not completed -/
+def firstBusy {α : Type} (s : FSt α) : Option (Nat × Nat) :=
+  (List.range s.workers.length).findSome? (fun w =>
+    match stOf s w with
+    | .emitting j true => some (w, j)
+    | _ => none)
+
+/-- one step of worker `w`'s task -/
+def runWorker {α : Type} (c : Cfg) (s : FSt α) (w : Nat) : Option (FSt α) :=
+  match s.workers[w]? with
+  | none => none
+  | some k =>
+    match k.st with
+    | .starting =>
+      -- `if previous is not None and not previous.done(): await asyncio.wait([previous])`
+      if c.life = .current ∧ w ≠ 0 ∧ stOf s (w - 1) ≠ .finished then some (setSt s w (.waitPrev false))
+      else some (loopTop s w)
+    | .waitPrev true => some (loopTop s w)
+    | .waitPrev false => none
+    | .getting _ => some (getNext s w)
+    | .awaiting j => some (emitNow s w j)
+    | .emitting j _ => some (loopTop { s with fin := s.fin ++ [j] } w)
+    | .finished => none
 
 /-- Run one handle (already removed from the ready queue).  `none` = this handle cannot exist in this state. -/
 def runH {α : Type} (c : Cfg) (s : FSt α) : H → Option (FSt α)
@@ -229,29 +350,40 @@ def runH {α : Type} (c : Cfg) (s : FSt α) : H → Option (FSt α)
     some (slotWait c { s with lockq := s.lockq.eraseP (fun e => e.1 == j) } j)
   | .insPoll j => some (slotWait c s j)
   | .ack j => some { s with acked := s.acked ++ [j] }
-  | .worker =>
-    match s.worker with
-    | .absent => none
-    | .starting => some (getNext s)
-    | .getting _ => some (getNext s)
-    | .awaiting j => some (emitNow s j)
-    | .emitting j _ => some (getNext { s with fin := s.fin ++ [j] })
+  | .worker w => runWorker c s w
+  | .waitCb w =>
+    match stOf s w with
+    | .waitPrev false => some { setSt s w (.waitPrev true) with ready := s.ready ++ [H.worker w] }
+    | _ => none
   | .jobFirst j =>
     match jst s j with
     | some .created => some { s with jobs := setJ j .running s.jobs }
     | some .createdResolved => some (finishJob s j)
     | _ => none
   | .jobWake j => some (finishJob s j)
-  | .gatherCb => some { s with ready := s.ready ++ [.worker] }
+  | .gatherCb w => some { s with ready := s.ready ++ [H.worker w] }
+
+/-- `map_async.start()` -/
+def startNode {α : Type} (c : Cfg) (s : FSt α) : FSt α :=
+  match c.life with
+  | .startReplaces =>
+    -- `if self.work_task: stop_work.set()`; `self.work_task = self._create_work_task()`
+    createWorker (match s.workTask with
+                  | some w => setStop s w
+                  | none => s)
+  | _ =>
+    -- `if self.work_task is None or self.work_task[1].done(): self.work_task = self._create_work_task()`
+    match s.workTask with
+    | none => createWorker s
+    | some w => if stOf s w = .finished then createWorker s else s
 
 /-- One transition; `none` = not enabled. -/
 def step {α : Type} (c : Cfg) (s : FSt α) : FAct α → Option (FSt α)
   | .arrive x =>
-    let i := s.ins.length
-    let s1 : FSt α := match s.worker with
-              | .absent => { s with worker := .starting, ready := s.ready ++ [H.worker] }
-              | _ => s
-    some { s1 with ins := s1.ins ++ [(i, x)], ready := s1.ready ++ [H.insFirst i] }
+    let s1 : FSt α := match s.workTask with
+              | none => createWorker s
+              | some _ => s
+    some { s1 with ins := s1.ins ++ [(s1.ins.length, x)], ready := s1.ready ++ [H.insFirst s1.ins.length] }
   | .tick =>
     match s.ready with
     | [] => none
@@ -262,9 +394,15 @@ def step {α : Type} (c : Cfg) (s : FSt α) : FAct α → Option (FSt α)
     | some .running => some { s with jobs := setJ j .resolved s.jobs, ready := s.ready ++ [.jobWake j] }
     | _ => none
   | .downDone =>
-    match s.worker with
-    | .emitting j true => some { s with worker := .emitting j false, ready := s.ready ++ [.gatherCb] }
-    | _ => none
+    match firstBusy s with
+    | some (w, j) => some { setSt s w (.emitting j false) with ready := s.ready ++ [H.gatherCb w] }
+    | none => none
+  | .start => some (startNode c s)
+  | .stop =>
+    -- `stop_work, _ = self.work_task` (TypeError when it is None); `stop_work.set()`; `self.work_task = None`
+    match s.workTask with
+    | none => none
+    | some w => some { setStop s w with workTask := none }
 
 def run {α : Type} (c : Cfg) : FSt α → List (FAct α) → Option (FSt α)
   | s, [] => some s
@@ -272,7 +410,7 @@ def run {α : Type} (c : Cfg) : FSt α → List (FAct α) → Option (FSt α)
 
 def init (α : Type) : FSt α := {}
 
-/-! ## Projections of the ready queue and the abstraction to the settled model's `waiting` list -/
+/-! ## Projections of the ready queue and the abstraction to the settled model -/
 
 /-- insert jobs whose first step has not run yet, in ready-queue order -/
 def fresh : List H → List Nat
@@ -290,14 +428,35 @@ def polls : List H → List Nat
   | .insPoll j :: r => j :: polls r
   | _ :: r => polls r
 
-def workers : List H → Nat
-  | [] => 0
-  | .worker :: r => workers r + 1
-  | _ :: r => workers r
+def waitCbs : List H → List Nat
+  | [] => []
+  | .waitCb w :: r => w :: waitCbs r
+  | _ :: r => waitCbs r
 
 /-- The settled model's `waiting` list (ids): the lock holder, the lock's waiter queue, the insert jobs that have
 not run their first step — in that order. -/
 def waitingIds {α : Type} (s : FSt α) : List Nat :=
   s.holder.toList ++ s.lockq.map Prod.fst ++ fresh s.ready
+
+/-- what the settled model knows of the worker -/
+inductive WP where
+  | idle | awaiting (j : Nat) | emitting (j : Nat)
+deriving Repr, DecidableEq
+
+def projA : W → Option WP
+  | .awaiting j => some (.awaiting j)
+  | .emitting j _ => some (.emitting j)
+  | _ => none
+
+/-- the settled model's view of all workers together: what the first worker that holds a task is doing with it
+(by `c02_map_async_single_consumer` there is at most one) -/
+def aproj {α : Type} (s : FSt α) : WP :=
+  ((List.range s.workers.length).findSome? (fun w => projA (stOf s w))).getD .idle
+
+/-- the job that has been taken out of the queue and not emitted yet -/
+def apre {α : Type} (s : FSt α) : List Nat :=
+  match aproj s with
+  | .awaiting j => [j]
+  | _ => []
 
 end StreamzVerif.MapAsyncFine
